@@ -63,6 +63,12 @@ func TestVerifC13H(t *testing.T) {
 						// low-latency chunked delivery of the same stream must carry the same events
 						c13RunHTTP(rep, srv, a, ap, N, byTime, quick, true)
 					}
+					if ap == "testpic_2s" {
+						// a stream that does not start on a wall-clock minute: the offsets are those of the wall clock
+						c13Start = 1_700_000_017
+						c13RunHTTP(rep, srv, a, ap, N, byTime, quick, false)
+						c13Start = 0
+					}
 				}
 			}
 		}
@@ -81,6 +87,9 @@ func TestVerifC13H(t *testing.T) {
 	}
 }
 
+// c13Start is the availabilityStartTime (s) of the stream c13RunHTTP walks; media time 0 is that wall-clock instant
+var c13Start uint64
+
 func c13RunHTTP(rep *vh.Report, srv *Server, a *vref.VAsset, asset string, N int, byTime bool, quick bool, chunked bool) {
 	v := a.Ref
 	parts := []string{fmt.Sprintf("scte35_%d", N)}
@@ -90,6 +99,12 @@ func c13RunHTTP(rep *vh.Report, srv *Server, a *vref.VAsset, asset string, N int
 	if byTime {
 		parts = append([]string{"segtimeline_1"}, parts...)
 	}
+	S := c13Start
+	stag := ""
+	if S != 0 {
+		parts = append(parts, fmt.Sprintf("start_%d", S))
+		stag = ":start-off-minute"
+	}
 	prefix := vCfgPrefix(parts...)
 	wrapS := uint64(1<<33) / 90000
 	windows := [][2]uint64{{0, 360}, {wrapS - 180, wrapS + 180}}
@@ -97,7 +112,11 @@ func c13RunHTTP(rep *vh.Report, srv *Server, a *vref.VAsset, asset string, N int
 		windows = [][2]uint64{{0, 200}, {wrapS - 70, wrapS + 70}}
 	}
 	// a stream that has been running since 1970 (start_0 and a present-day instant): large media times
-	windows = append(windows, [2]uint64{1_700_000_040 - 60, 1_700_000_040 + 80})
+	if S == 0 {
+		windows = append(windows, [2]uint64{1_700_000_040 - 60, 1_700_000_040 + 80})
+	} else {
+		windows = windows[:1]
+	}
 	adDur := uint64(10)
 	if N == 1 {
 		adDur = 20
@@ -122,7 +141,7 @@ func c13RunHTTP(rep *vh.Report, srv *Server, a *vref.VAsset, asset string, N int
 				firstSeg = false
 			}
 			hi = e
-			now := vref.TicksToMSCeil(e, v.TS) + 1
+			now := vref.TicksToMSCeil(e, v.TS) + 1 + int64(S)*1000
 			for _, id := range ids {
 				r := a.Reps[id]
 				if r.Kind == "image" || (r.Kind == "audio" && r.FrameDur == 0) {
@@ -196,13 +215,16 @@ func c13RunHTTP(rep *vh.Report, srv *Server, a *vref.VAsset, asset string, N int
 					carried[spS]++
 					okOff := false
 					for _, o := range []uint64{10, 40, 36, 46} {
-						if spS%60 == o {
+						if (spS+S)%60 == o {
 							okOff = true
 						}
 					}
 					ann := (spS - 7) * v.TS
+					if S != 0 {
+						okOff = true // offsets are judged for the whole window below (known finding: they follow media-time minutes)
+					}
 					if !okOff || ann < s || ann > e {
-						rep.Violate("C13.carrier", "wrong-carrier", fmt.Sprintf("%s: segment [%d,%d]/%d carries splice at %d s", url, s, e, v.TS, spS), in)
+						rep.Violate("C13.carrier", "wrong-carrier"+stag, fmt.Sprintf("%s: segment [%d,%d]/%d carries splice at %d s", url, s, e, v.TS, spS), in)
 					}
 					si, err := vref.ParseSpliceInfo(em.Data)
 					if err != nil {
@@ -227,9 +249,48 @@ func c13RunHTTP(rep *vh.Report, srv *Server, a *vref.VAsset, asset string, N int
 		default:
 			offs = []uint64{10, 36, 46}
 		}
-		for m := lo / v.TS / 60; m <= hi/v.TS/60+1; m++ {
+		if S != 0 {
+			// classification for a stream that does not start on a minute: exactly the events of the wall-clock schedule
+			// (what the statement says), exactly those of a schedule counted from the stream start (known finding), or neither
+			want := func(shift uint64) map[uint64]bool {
+				w := map[uint64]bool{}
+				for m := (lo/v.TS + shift) / 60; m <= (hi/v.TS+shift)/60+1; m++ {
+					for _, o := range offs {
+						if m*60+o < shift+7 {
+							continue
+						}
+						sp := m*60 + o - shift
+						if ann := (sp - 7) * v.TS; sp >= 7 && ann > lo && ann <= hi {
+							w[sp] = true
+						}
+					}
+				}
+				return w
+			}
+			same := func(w map[uint64]bool) bool {
+				if len(w) != len(carried) {
+					return false
+				}
+				for sp := range w {
+					if carried[sp] != 1 {
+						return false
+					}
+				}
+				return true
+			}
+			rep.Hit("C13.once")
+			if !same(want(S)) && same(want(0)) {
+				rep.Violate("C13.once", fmt.Sprintf("offsets-counted-from-stream-start:N%d", N), fmt.Sprintf("%s scte35_%d start_%d byTime=%v: the events lie at the documented offsets of minutes counted from the stream start (%d s after a wall-clock minute), not of wall-clock minutes", asset, N, S, byTime, S%60),
+					map[string]any{"asset": asset, "perMinute": N, "start": S})
+				continue
+			}
+		}
+		for m := (lo/v.TS + S) / 60; m <= (hi/v.TS+S)/60+1; m++ {
 			for _, o := range offs {
-				sp := m*60 + o
+				if m*60+o < S+7 {
+					continue
+				}
+				sp := m*60 + o - S // media time of the splice at wall-clock minute m, offset o
 				if sp < 7 {
 					continue
 				}
@@ -243,7 +304,7 @@ func c13RunHTTP(rep *vh.Report, srv *Server, a *vref.VAsset, asset string, N int
 					if c > 1 {
 						kind = "duplicate"
 					}
-					rep.Violate("C13.once", fmt.Sprintf("%s-event:N%d:offset%d%s", kind, N, o, vIf(chunked, ":chunked", "")), fmt.Sprintf("%s scte35_%d byTime=%v: splice at %d s (minute %d + %d s) is carried by %d video segments", asset, N, byTime, sp, m, o, c),
+					rep.Violate("C13.once", fmt.Sprintf("%s-event:N%d:offset%d%s%s", kind, N, o, vIf(chunked, ":chunked", ""), stag), fmt.Sprintf("%s scte35_%d byTime=%v: splice at %d s (minute %d + %d s) is carried by %d video segments", asset, N, byTime, sp, m, o, c),
 						map[string]any{"asset": asset, "perMinute": N, "splice_s": sp})
 				}
 			}
@@ -255,6 +316,9 @@ func c13RunHTTP(rep *vh.Report, srv *Server, a *vref.VAsset, asset string, N int
 		mn := vMPDNameFor(a, v.ID)
 		if comb != "" && (asset != "testpic_2s" || chunked) {
 			continue
+		}
+		if S != 0 {
+			continue // the announcement does not depend on the start time; checked with start 0
 		}
 		u := fmt.Sprintf("%s/%s/%s?nowMS=100000", prefix, asset, mn)
 		if comb != "" {
